@@ -62,3 +62,49 @@ def record_case(cid, T, sys_, mods, seed, origin='tlc', with_file=True):
         case['res'] = 'exc'
         case['exc'] = '%s: %s' % (type(ex).__name__, str(ex)[:80])
     return case
+
+
+def record_cli_case(cid, T, sys_, seed, origin='cli'):
+    """the `treetools transitions` command: tree file -> negra_mark_heads, binarize -> oracle -> file.
+    The tree recorded is the one the API pipeline produces from the same file; the file line comes from the CLI."""
+    import shutil
+    import subprocess
+    from . import core, fam_io
+    mods = treeio.repo_modules()
+    rnd = random.Random(seed)
+    tmp = tempfile.mkdtemp(prefix='vf_trc_')
+    case = {'id': cid, 'origin': origin, 'sys': sys_, 'tree': None, 'seq': [], 'raw': [], 'sent': [],
+            'res': 'ok', 'file': {'used': 'F', 'pos': 'F', 'words': [], 'trans': [], 'nlines': 0}}
+    try:
+        src = os.path.join(tmp, 'in.export')
+        with open(src, 'w', encoding='utf-8') as f:
+            f.write(fam_io.render_export(T, 7, False, rnd))
+        tree = next(mods['treeinput'].export(src, 'utf-8', quiet=True))
+        tf = mods['transform']
+        with contextlib.redirect_stderr(io.StringIO()), contextlib.redirect_stdout(io.StringIO()):
+            tree = tf.binarize(tf.negra_mark_heads(tree))
+            case['tree'] = treeio.Dumper(treeio.Atoms(seed)).dump(tree)
+            sent, seq = getattr(mods['transitions'], sys_)(tree)
+        case['raw'] = [str(t) for t in seq]
+        case['seq'] = [split_name(x) for x in case['raw']]
+        case['sent'] = [[w, t] for (w, t) in sent]
+        pos = rnd.random() < 0.5
+        args = [core.VENV_PY, os.path.join(core.REPO, 'treetools'), 'transitions', src, os.path.join(tmp, 'out.tr'), sys_,
+                '--transform', 'negra_mark_heads', 'binarize'] + (['--dest-opts', 'pos'] if pos else [])
+        p = subprocess.run(args, cwd=tmp, stdout=subprocess.PIPE, stderr=subprocess.PIPE)
+        lines = []
+        if os.path.exists(os.path.join(tmp, 'out.tr')):
+            lines = open(os.path.join(tmp, 'out.tr'), encoding='utf-8').read().split('\n')
+            if lines and lines[-1] == '':
+                lines = lines[:-1]
+        left, _, right = (lines[0] if lines else '').partition(' ||| ')
+        case['file'] = {'used': 'T', 'pos': 'T' if pos else 'F', 'words': left.split(' ') if left else [],
+                        'trans': right.split(' ') if right else [], 'nlines': len(lines) if p.returncode == 0 else -1}
+    except Exception as ex:
+        case['res'] = 'exc'
+        case['exc'] = '%s: %s' % (type(ex).__name__, str(ex)[:80])
+        if case['tree'] is None:
+            case['tree'] = treeio.Dumper(treeio.Atoms(seed)).dump(treeio.build(T, mods, treeio.Atoms(seed)))
+    finally:
+        shutil.rmtree(tmp, ignore_errors=True)
+    return case
